@@ -30,7 +30,7 @@ TINY = [None, 1, '1', A.Color.RED]
 
 TYPES = {'Foo': A.Foo, 'FooBar': A.FooBar, 'Foo_': A.Foo_, 'BFoo': B.Foo, 'JFoo': A.JFoo, 'P2': A.P2,
          'Leaf': A.Leaf, 'BLeaf': B.Leaf, 'NoCacheT': A.NoCacheT, 'PFoo': A.PFoo,
-         'Modèle': getattr(A, 'Modèle'), 'Эксперимент': getattr(A, 'Эксперимент')}
+         'Modèle': getattr(A, 'Modèle'), 'Эксперимент': getattr(A, 'Эксперимент'), 'DFoo': A.DFoo}
 OUTER = ('Foo', 'BFoo', 'FooBar', 'Foo_', 'JFoo', 'P2', 'PFoo', 'Modèle', 'Эксперимент')
 
 
@@ -75,6 +75,11 @@ def space(tier: str):
     for _, la, real in lookalikes():
         out.append(('Foo', la, None))
         out.append(('Foo', real, None))
+    # a parameter with a non-None default: left out, passed explicitly as None, as the default, as something else
+    for x in SMALL:
+        for y in (None, ('s', None), ('s', 100), ('s', 0), ('s', 'a')):
+            out.append(('DFoo', ('s', x), y))
+    out.append(('Foo', ('t', 'DFoo', ('s', 1)), None))
     # dict parameters whose keys are not in alphabetical order (top level, in a list, in a nested task)
     zd = ('d', (('zeta', ('s', 1)), ('alpha', ('s', 2)), ('mid', ('d', (('y', ('s', None)), ('b', ('s', 'a')))))))
     for tn in ('Foo', 'JFoo', 'PFoo'):
